@@ -115,3 +115,116 @@ func pbfPerIteration(o types.Object, loop *ast.ForStmt, body *ast.BlockStmt, inL
 	}
 	return inLoopChain && body != nil && o.Pos() > body.Pos() && o.Pos() < body.End() && !(loop.Pos() >= body.Pos() && loop.End() <= body.End())
 }
+
+// fieldInits lists the expressions that give field f its value in the struct values expression x can denote: the
+// keyed elements of composite literals, reached through `&lit` / `*p`, locals and parameters (every definition),
+// results of declared functions (every return), and assignments `v.f = e` to a local v. A literal that leaves f out
+// contributes nothing (the zero value). ok is false when some value cannot be followed.
+func (m *pbfModel) fieldInits(x ast.Expr, idx int, f *types.Var, seen map[types.Object]bool, depth int) (out []ast.Expr, ok bool) {
+	if x == nil || depth > 10 {
+		return nil, false
+	}
+	x = ast.Unparen(x)
+	switch y := x.(type) {
+	case *ast.CompositeLit:
+		for _, e := range y.Elts {
+			kv, isKV := e.(*ast.KeyValueExpr)
+			if !isKV {
+				return nil, false
+			}
+			if id, isID := kv.Key.(*ast.Ident); isID && m.info.Uses[id] == f {
+				out = append(out, kv.Value)
+			}
+		}
+		return out, true
+	case *ast.UnaryExpr:
+		if y.Op.String() == "&" {
+			return m.fieldInits(y.X, 0, f, seen, depth+1)
+		}
+	case *ast.StarExpr:
+		return m.fieldInits(y.X, 0, f, seen, depth+1)
+	case *ast.CallExpr:
+		fn := callee(m.info, y)
+		if fn == nil || m.funcs[fn] == nil {
+			return nil, false
+		}
+		rets := m.returnsOf(m.funcs[fn], idx)
+		if len(rets) == 0 {
+			return nil, false
+		}
+		for _, ret := range rets {
+			if ret == nil {
+				return nil, false
+			}
+			es, ok := m.fieldInits(ret, 0, f, seen, depth+1)
+			if !ok {
+				return nil, false
+			}
+			out = append(out, es...)
+		}
+		return out, true
+	case *ast.Ident:
+		o, isVar := objOf(m.info, y).(*types.Var)
+		if !isVar || o.IsField() {
+			return nil, false
+		}
+		if seen[o] {
+			return nil, true
+		}
+		seen[o] = true
+		defer delete(seen, o)
+		defs := m.defsOf(o)
+		if len(defs) == 0 {
+			return nil, false
+		}
+		for _, d := range defs {
+			var es []ast.Expr
+			ok := true
+			switch d.kind {
+			case "zero":
+			case "assign", "arg":
+				es, ok = m.fieldInits(d.e, 0, f, seen, depth+1)
+			case "result":
+				es, ok = m.fieldInits(d.e, d.idx, f, seen, depth+1)
+			default:
+				ok = false
+			}
+			if !ok {
+				return nil, false
+			}
+			out = append(out, es...)
+		}
+		// field-wise assignments to the variable
+		if fi := m.funcAt(o.Pos()); fi != nil {
+			ast.Inspect(fi.Decl.Body, func(n ast.Node) bool {
+				if as, isAs := n.(*ast.AssignStmt); isAs && len(as.Lhs) == len(as.Rhs) {
+					for i, l := range as.Lhs {
+						if fieldOf(m.info, l) == f && rootObj(m.info, l) == types.Object(o) {
+							out = append(out, as.Rhs[i])
+						}
+					}
+				}
+				return true
+			})
+		}
+		return out, true
+	}
+	return nil, false
+}
+
+// structLocalField: e is `v.f` (possibly `v.g.f` over nested struct values) where v is a local variable or parameter
+// holding a struct value or a pointer to one; it returns v's expression and f.
+func (m *pbfModel) structLocalField(e ast.Expr) (ast.Expr, *types.Var) {
+	sel, ok := ast.Unparen(e).(*ast.SelectorExpr)
+	if !ok {
+		return nil, nil
+	}
+	f := fieldOf(m.info, sel)
+	if f == nil {
+		return nil, nil
+	}
+	if o, ok := objOf(m.info, sel.X).(*types.Var); ok && !o.IsField() {
+		return sel.X, f
+	}
+	return nil, nil
+}
